@@ -110,7 +110,7 @@ def worker(args):
 
 def run(ctx):
     server_bin("rel")
-    nprog, mi = (25, 30) if ctx.quick else (1500, 100)
+    nprog, mi = (60, 30) if ctx.quick else (1500, 100)
     for p in pmap(worker, [("%s/%d" % (ctx.seed, i), nprog, mi) for i in range(NCPU)]): ctx.merge(p)
     ctx.rule = ("well-typed generated programs; hover on every sampled identifier (signature = kind, name, ref marker, fully resolved type; doc comments in order; exact range); "
                 "signatureHelp at every call: after `(`, after each comma, before `)`, inside and at the end of each argument, calls nested in blocks/branches/loops, predefined callees; "
